@@ -30,6 +30,7 @@ def main():
             orig = open(p).read()
             if orig.count(m["old"]) != 1:
                 results.append((m["name"], "STALE (pattern occurs %d times)" % orig.count(m["old"]), ""))
+                print("SELFTEST property=%s mutant=%s -> STALE (pattern occurs %d times)" % (pid, m["name"], orig.count(m["old"])), flush=True)
                 continue
             open(p, "w").write(orig.replace(m["old"], m["new"]))
             env = dict(os.environ, CXXVC_REPO=scratch, CXXVC_CACHE=os.path.join(tmp, "cache"),
